@@ -8,7 +8,7 @@ let split_first c s =
 
 let args_of op =
   let (name, rest) = split_first ':' op in
-  (name, if rest = "" then [||] else Array.of_list (split_on ',' rest))
+  (name, Array.of_list (split_on ',' rest))
 
 let cls_name (o : 'a Base.outcome) : string =
   match int_of_z (N6Lib.n6_class o) with 0 -> "ok" | 1 -> "err" | 2 -> "panic" | _ -> "stuck"
